@@ -76,6 +76,9 @@ class SimpleClient:
         def __disconnect_final():  # pragma: no cover
             self.connected = False
             self.connected_event.set()
+            # wake up a receive() call that is waiting for input, so that it
+            # can report the disconnection
+            self.input_event.set()
 
         @self.client.on('*', namespace=self.namespace)
         def on_event(event, *args):  # pragma: no cover
